@@ -12,7 +12,9 @@
 (*        missing: indices (1-based) of the readings without a value;      *)
 (*        reading i carries Val(i)                                         *)
 (*     out = [res, has, n, d, ok]  the day's usage                         *)
-(*  in.kind = "temp": [interval, dayMin, missing, total]                   *)
+(*  in.kind = "temp": [interval, dayMin, missing, total, mh]               *)
+(*        mh: local hour at which the meter is read; the meter day runs    *)
+(*        from mh:00 to the next mh:00 and has dayMin minutes              *)
 (*     out = [res, has, n, d, ok, notnull, null]  the day's temperature    *)
 (*        and the coverage counts that feed the sufficiency test           *)
 (***************************************************************************)
